@@ -80,6 +80,7 @@ impl SymbolSupplier for GatedSupplier {
         self.calls.fetch_add(1, Ordering::SeqCst);
         let cf = module.code_file().to_string();
         let fk = full_key(module);
+        let call_no;
         {
             let mut pk = self.per_key.lock().unwrap();
             let e = pk.entry(fk.clone()).or_insert((0, 0, 0));
@@ -89,6 +90,7 @@ impl SymbolSupplier for GatedSupplier {
             }
             e.1 += 1;
             e.2 = e.2.max(e.1);
+            call_no = e.0;
         }
         let n = self.gates.get(&cf).copied().unwrap_or(0);
         for _ in 0..n {
@@ -108,9 +110,16 @@ impl SymbolSupplier for GatedSupplier {
                     let kind = [K::Other, K::Interrupted, K::NotFound, K::PermissionDenied, K::TimedOut, K::UnexpectedEof, K::WouldBlock][(crate::common::fnv(cf.as_bytes()) % 7) as usize];
                     return Err(SymbolError::LoadError(std::io::Error::new(kind, "simulated read failure")));
                 }
+                if m.sym_kind == "transient load error" && call_no == 1 {
+                    // a passing I/O error: only the first request for the module fails; whoever
+                    // asks again gets the file (nobody does while the first answer is remembered)
+                    return Err(SymbolError::LoadError(std::io::Error::new(std::io::ErrorKind::Interrupted, "simulated transient read failure")));
+                }
                 return match &m.sym {
                     Some(bytes) => Ok(LocateSymbolsResult {
-                        symbols: SymbolFile::from_bytes(bytes)?,
+                        // what `SymbolFile::from_bytes` does, through a reader that notices a
+                        // parser that keeps asking after the end of the input
+                        symbols: SymbolFile::parse(EofBudgetReader { data: bytes, pos: 0, eof_reads: 0 }, |_| ())?,
                         extra_debug_info: None,
                     }),
                     None => Err(SymbolError::NotFound),
@@ -121,6 +130,28 @@ impl SymbolSupplier for GatedSupplier {
     }
     async fn locate_file(&self, _module: &(dyn Module + Sync), _file_kind: FileKind) -> Result<PathBuf, FileError> {
         Err(FileError::NotFound)
+    }
+}
+
+/// A slice reader that counts the reads answered with 0 after the end of the data.
+struct EofBudgetReader<'a> {
+    data: &'a [u8],
+    pos: usize,
+    eof_reads: u32,
+}
+
+impl std::io::Read for EofBudgetReader<'_> {
+    fn read(&mut self, buf: &mut [u8]) -> std::io::Result<usize> {
+        let n = buf.len().min(self.data.len() - self.pos);
+        buf[..n].copy_from_slice(&self.data[self.pos..self.pos + n]);
+        self.pos += n;
+        if n == 0 && !buf.is_empty() {
+            self.eof_reads += 1;
+            if self.eof_reads > 64 {
+                simkit::runner::trip("c03.symbol_parse_spin", "the symbol parser read more than 64 times after the reader had answered EOF (it does not terminate on this symbol file)");
+            }
+        }
+        Ok(n)
     }
 }
 
@@ -913,6 +944,41 @@ fn diff_values(a: &Renderings, b: &Renderings) -> serde_json::Value {
     json!(null)
 }
 
+/// From the JSON report itself: file names listed more than once, and file names of modules
+/// that share (debug_file, debug_id) with another listed module.
+fn reported_dups_and_twins(r: &Renderings) -> (Vec<String>, Vec<String>) {
+    let mut dups = Vec::new();
+    let mut twins = Vec::new();
+    let v: serde_json::Value = match serde_json::from_slice(&r.json) {
+        Ok(v) => v,
+        Err(_) => return (dups, twins),
+    };
+    let mods = match v.get("modules").and_then(|m| m.as_array()) {
+        Some(m) => m,
+        None => return (dups, twins),
+    };
+    let s = |m: &serde_json::Value, k: &str| m.get(k).and_then(|f| f.as_str()).unwrap_or("").to_string();
+    let mut by_name: BTreeMap<String, u32> = BTreeMap::new();
+    let mut by_id: BTreeMap<(String, String), u32> = BTreeMap::new();
+    for m in mods {
+        *by_name.entry(s(m, "filename")).or_insert(0) += 1;
+        let id = (s(m, "debug_file"), s(m, "debug_id"));
+        if !id.0.is_empty() && !id.1.is_empty() {
+            *by_id.entry(id).or_insert(0) += 1;
+        }
+    }
+    for m in mods {
+        let name = s(m, "filename");
+        if by_name.get(&name).copied().unwrap_or(0) > 1 && !dups.contains(&name) {
+            dups.push(name.clone());
+        }
+        if by_id.get(&(s(m, "debug_file"), s(m, "debug_id"))).copied().unwrap_or(0) > 1 && !twins.contains(&name) {
+            twins.push(name);
+        }
+    }
+    (dups, twins)
+}
+
 /// Leaf names shared by two or more modules of the world.
 fn duplicate_leaves(mods: &[ModSpec]) -> Vec<String> {
     let mut seen: BTreeMap<String, u32> = BTreeMap::new();
@@ -986,8 +1052,23 @@ pub const SIG_TWIN_URL: &str = "c13.twin_modules_symbol_url";
 /// depends on whose download reached the cache first) get their own fixed signatures *only*
 /// when nothing else differs.
 fn mismatch_violation(oracle: &str, what: &str, mods: &[ModSpec], a: &Renderings, b: &Renderings) -> Violation {
-    let dups = duplicate_leaves(mods);
-    let twins = twin_leaves(mods);
+    // the world's view and the report's own view (a module's name in the dump can differ from
+    // the world's: the "tail string" shape replaces it)
+    let mut dups = duplicate_leaves(mods);
+    let mut twins = twin_leaves(mods);
+    for r in [a, b] {
+        let (d, t) = reported_dups_and_twins(r);
+        for x in d {
+            if !dups.contains(&x) {
+                dups.push(x);
+            }
+        }
+        for x in t {
+            if !twins.contains(&x) {
+                twins.push(x);
+            }
+        }
+    }
     let same_leaf = || {
         Violation::new(
             SIG_SAME_LEAF,
